@@ -76,7 +76,7 @@ func TestConcurrent(t *testing.T) {
 	tr := &http.Transport{MaxIdleConnsPerHost: K, MaxConnsPerHost: 0}
 	hc := &http.Client{Transport: tr, Timeout: 120 * time.Second}
 	e.rec.prepare("ok")
-	base := "http://" + e.addr["auth"]
+	base := "http://" + e.addr["auth/plain"]
 	var wg sync.WaitGroup
 	start := make([]chan struct{}, M)
 	for m := range start {
